@@ -32,11 +32,15 @@ def build_cases(tier):
     return cases
 
 
-def gen_params(rng, tier):
+def gen_params(rng, tier, big=False):
     """nasim generator parameters with custom (larger) address bounds and many
     OS / services / processes."""
     num_hosts = rng.choice([3, 4, 5, 8, 9, 12, 16, 23] +
                            ([41, 42, 60] if tier == "thorough" else []))
+    if big or rng.random() < 0.04:
+        # > 200 hosts: the DMZ subnet (ceil(n/40) hosts) is larger than the
+        # five-host user subnets
+        num_hosts = rng.choice([201, 215, 241])
     p = dict(num_hosts=num_hosts, num_services=rng.randint(1, 12),
              num_os=rng.randint(1, 4), num_processes=rng.randint(1, 4),
              restrictiveness=rng.randint(1, 5),
@@ -67,7 +71,7 @@ def make_source(ctype, cid, rng, tier):
     if ctype == "benchgen":
         sp, sc = corpus.generated_case(cid, rng.randrange(1000))
         return sp, dict(route="nasim-generator", scenario=sc)
-    p = gen_params(rng, tier)
+    p = gen_params(rng, tier, big=(cid % 8 == 0))
     try:
         sc = nasim.generate_scenario(**p)
     except AssertionError:
